@@ -76,6 +76,9 @@ pub enum Op {
     TmpGet { vals: Vec<MVal>, i: u64 },
     /// Rust: start iterating (`into_iter`), take `k` items, push `v` through the handle, collect the rest
     IterWithPush { h: usize, k: u64, v: MVal },
+    /// Rust: take the handle out of slot `h` and consume it with `into_iter()`; after `k` items
+    /// drop the handle in slot `alias` (often the only other handle of the same list)
+    IterConsume { h: usize, alias: usize, k: u64 },
     /// script literal `[a, b, c, a, b, c, a, b, c]` (crosses two growth boundaries)
     Lit9 { dst: usize, vals: Vec<MVal> },
     CloneH { src: usize, dst: usize },
@@ -177,6 +180,17 @@ impl SeqModel {
                 self.slots[*dst] = Some(id);
                 Obs::Unit
             }
+            Op::IterConsume { h, alias, .. } => match self.lid(*h) {
+                Some(id) => {
+                    let v = self.heap.lists[id].clone();
+                    self.slots[*h] = None;
+                    if *alias < self.slots.len() {
+                        self.slots[*alias] = None;
+                    }
+                    Obs::Vals(v)
+                }
+                None => Obs::Skipped,
+            },
             Op::TmpGet { vals, i } => Obs::OptVal(vals.get(*i as usize).cloned()),
             Op::IterWithPush { h, k, v } => match self.lid(*h) {
                 Some(id) => {
